@@ -248,7 +248,8 @@ fn gathered_keys(mfs: &[MetricFamily], templates: &[Template]) -> BTreeSet<Key> 
 pub fn run_case(cx: &mut Ctx) {
     let mut rng = Rng::derive(cx.seed, cx.case.wrapping_mul(2).wrapping_add(0xC06));
     // one history in thirty is a bulk one: hundreds of collectors over hundreds of names (map growth, many ids)
-    let bulk = cx.case % 30 == 5;
+    // (not under the interpreter: a bulk history is hours of Miri time)
+    let bulk = cx.case % 30 == 5 && !cfg!(miri);
     let names: u64 = if bulk { 300 } else { 3 };
     let ntemplates = if bulk { 150 + rng.usize_below(250) } else { 6 + rng.usize_below(8) };
     let mut templates: Vec<Template> = Vec::new();
